@@ -17,7 +17,7 @@ import (
 	"os"
 	"sort"
 	"testing"
-	"testing/synctest"
+	"time"
 
 	"google.golang.org/grpc/verif/retryplan"
 	"google.golang.org/grpc/verif/vlib"
@@ -39,15 +39,19 @@ func has(props []string, p string) bool {
 	return false
 }
 
-func runFam(t *testing.T, r *vlib.Run, fam string, bias retryplan.Bias, n int) {
+// runFam returns false when a case got stuck (wall-clock guard): the run stops.
+func runFam(t *testing.T, r *vlib.Run, fam string, bias retryplan.Bias, n int) bool {
 	for i := 0; i < n; i++ {
 		if !r.Want(fam, i) {
 			continue
 		}
 		sc := retryplan.Gen(r.Rand(fam, i), bias)
 		r.Progress(fam, i, fmt.Sprintf("rpcs=%d", len(sc.RPCs)))
-		var obs *retryplan.Obs
-		synctest.Test(t, func(t *testing.T) { obs = retryplan.Run(&sc) })
+		obs, ok := retryplan.RunGuarded(t, &sc, 3*time.Minute)
+		if !ok {
+			r.Inconclusive("case %s/%d did not finish within 3 min of wall-clock time (virtual time cannot advance: see retryplan.RunGuarded)", fam, i)
+			return false
+		}
 		v := retryplan.Judge(&sc, obs)
 		r.Eval(1)
 		for _, f := range v.Findings {
@@ -70,12 +74,13 @@ func runFam(t *testing.T, r *vlib.Run, fam string, bias retryplan.Bias, n int) {
 			r.Sample(map[string]any{"family": fam, "scenario": sc, "retry_signatures": v.RetrySigs, "conns": obs.Conns})
 		}
 	}
+	return true
 }
 
 func TestVerifC18(t *testing.T) {
 	r := vlib.Start(t, "C18")
-	runFam(t, r, "mixed", retryplan.BiasMixed, r.N(700, 14000)/light())
-	runFam(t, r, "throttled", retryplan.BiasThrottle, r.N(150, 3000)/light())
+	_ = runFam(t, r, "mixed", retryplan.BiasMixed, r.N(3000, 40000)/light()) &&
+		runFam(t, r, "throttled", retryplan.BiasThrottle, r.N(600, 8000)/light())
 	r.Finish(vlib.Spec{
 		Level: "exploration",
 		Rule: "per case: random retryPolicy (maxAttempts 2-7, 1-4 codes, backoff) or none, WithMaxCallAttempts unset/1-6, retryThrottling on/off, WithDisableRetry (4%), then 1-4 (family throttled: 5-14) sequential calls: unary / client-streaming / bidi (one or two application goroutines), 0-5 messages of 0-5000 bytes with think times, CloseSend or not, MaxRetryRPCBufferSize default or at/around the cumulative message sizes, deadline 1-60 s; the scripted server answers wire attempt w per plan (trailers-only(code[,pushback valid/negative/malformed/multiple]), headers-then-trailers, headers+message-then-fail, RST(REFUSED/CANCEL/INTERNAL/ENHANCE_YOUR_CALM), GOAWAY below the id, silence, OK) after HEADERS / after the k-th message / after END_STREAM; " +
